@@ -155,10 +155,11 @@ def gen_recovery(rng):
     ops = [op for op in base['ops'] if op[1] in ('rx', 'proc', 'tick', 'recv', 'stop_receiving')]
     ops = [op if op[1] != 'proc' else [0, 'proc', 1, 1] for op in ops]
     # drain whatever is still in the inbox / rx queue, let pending timers expire or not, at random
-    ops += [[0, 'proc', 1, 1]] * 4
+    # (one process() call stops reading at each frame that asks for an immediate transmit pass: as many calls as frames fed)
+    ops += [[0, 'proc', 1, 1]] * (4 + sum(1 for op in ops if op[1] == 'rx'))
     if rng.random() < 0.5:
         ops += [[0, 'tick', inst['params'].get('rx_consecutive_frame_timeout', 1000) * 10**6 + 5], [0, 'proc', 1, 1]]
-    ops += [[0, 'recv']] * 8
+    ops += [[0, 'recv']] * (8 + sum(1 for op in ops if op[1] == 'rx'))
     mark = len(ops)
     rid, ext, pfx = reach(inst)
     n = rng.choice([1, 7, 8, 30, 100])
